@@ -743,6 +743,42 @@ func (m *Machine) builtin(b *ssa.Builtin, args []Value, at []types.Type) Value {
 	case "close":
 		m.chanClose(args[0].(*ChanV))
 		return nil
+	case "SliceData": // unsafe.SliceData
+		sl := args[0].(Slice)
+		if sl.Base.Obj == nil {
+			return Ptr{}
+		}
+		return sub(sl.Base, sl.Off)
+	case "String", "Slice": // unsafe.String(ptr, len), unsafe.Slice(ptr, len)
+		p := args[0].(Ptr)
+		n := m.lenArg(args[1].(*Term), "unsafe length")
+		isStr := b.Name() == "String"
+		if n == 0 || p.Obj == nil {
+			if isStr {
+				return Str{}
+			}
+			return Slice{}
+		}
+		base := Ptr{Obj: p.Obj, Path: p.Path[:len(p.Path)-1]}
+		off := p.Path[len(p.Path)-1]
+		arr, ok := (*m.cell(base)).(*ArrayV)
+		if !ok || off+n > len(arr.E) {
+			m.unsupported("unsafe.String/Slice outside an array")
+		}
+		if !isStr {
+			return Slice{Base: base, Off: off, Len: n, Cap: len(arr.E) - off}
+		}
+		out := make([]*Term, n)
+		for i := range out {
+			out[i] = arr.E[off+i].(*Term)
+		}
+		return Str{out}
+	case "StringData":
+		st := args[0].(Str)
+		if len(st.B) == 0 {
+			return Ptr{}
+		}
+		return sub(m.BytesToSlice(append([]*Term(nil), st.B...)).Base, 0)
 	}
 	m.unsupported("builtin " + b.Name() + fmt.Sprintf(" on %T", args[0]))
 	return nil
